@@ -16,7 +16,7 @@ ROUTES = ["Quaternion(v)", "QuaternionArray(V)", "DCM(R)", "DCM(q=)", "DCM(x,y,z
           "Quaternion.__add__", "Quaternion.__sub__", "random_attitudes", "Quaternion(random=True)", "QuaternionArray(int)",
           "QuaternionArray.rotate_by", "QuaternionArray.average", "reject/Quaternion", "reject/QuaternionArray", "reject/DCM",
           "reject/Quaternion(dcm=)", "accept/DCM", "accept/Quaternion(dcm=)"]
-REGIONS = {"vec:tiny": 40, "vec:huge": 40, "vec:moderate": 40, "vec:mixed": 40, "dcm": 100, "ops": 100, "reject:vector": 60,
+REGIONS = {"vec:tiny": 40, "vec:huge": 40, "vec:moderate": 40, "vec:mixed": 40, "vec:near-unit": 40, "dcm": 100, "ops": 100, "reject:vector": 60,
            "reject:matrix": 100, "accept:matrix": 60}
 PROBES = [("ahrs.common.dcm", "_assert_SO3"), ("ahrs.common.quaternion", "random_attitudes"),
           ("ahrs.common.quaternion", "QuaternionArray.average"), ("ahrs.common.quaternion", "QuaternionArray.rotate_by"),
@@ -42,22 +42,30 @@ def so3_dist(M):
     return float(np.abs(M - P).max())
 
 
+def near_unit(rng):
+    return 1.0 + float(rng.choice([-1.0, 1.0])) * gens.logu(rng, 1e-12, 3e-5)
+
+
 def generate(rng, tier, shard, nshards):
     n = gens.budget(420, tier, nshards)
     for i in range(n):
-        reg = ["vec:tiny", "vec:huge", "vec:moderate", "vec:mixed"][i % 4]
-        dim = 3 + (i // 4) % 2
-        lo, hi = {"vec:tiny": (1e-100, 1e-20), "vec:huge": (1e20, 1e100), "vec:moderate": (1e-3, 1e3), "vec:mixed": (1.0, 1.0)}[reg]
-        v = gens.unit(rng, dim=dim) * gens.logu(rng, lo, hi) if reg != "vec:mixed" else \
-            rng.standard_normal(dim) * 10.0 ** rng.uniform(-30, 0, dim) * gens.logu(rng, 1e-60, 1e60)
+        reg = ["vec:tiny", "vec:huge", "vec:moderate", "vec:mixed", "vec:near-unit"][i % 5]
+        dim = 3 + (i // 5) % 2
+        lo, hi = {"vec:tiny": (1e-100, 1e-20), "vec:huge": (1e20, 1e100), "vec:moderate": (1e-3, 1e3), "vec:mixed": (1.0, 1.0), "vec:near-unit": (1.0, 1.0)}[reg]
+        if reg == "vec:near-unit":      # almost normalised (typed with a few decimals, or a unit vector that drifted): inside np.isclose's default band around 1
+            v = gens.unit(rng, dim=dim) * near_unit(rng)
+        else:
+            v = gens.unit(rng, dim=dim) * gens.logu(rng, lo, hi) if reg != "vec:mixed" else \
+                rng.standard_normal(dim) * 10.0 ** rng.uniform(-30, 0, dim) * gens.logu(rng, 1e-60, 1e60)
         nrows = int(rng.integers(1, 5))
         V = np.vstack([v] + [gens.unit(rng, dim=dim) * gens.logu(rng, 1e-100, 1e100) for _ in range(nrows - 1)])
         yield Case("vec", reg, v=v, V=V)
     for i in range(n):
         k = int(rng.integers(1, 4))
-        yield Case("dcm", "dcm", q=gens.unit(rng) * gens.logu(rng, 1e-3, 1e3), xyz=rng.uniform(-np.pi, np.pi, 3),
+        nu = i % 3 == 2             # every third case: quaternion and axis almost (not exactly) of unit length
+        yield Case("dcm", "dcm", q=gens.unit(rng) * (near_unit(rng) if nu else gens.logu(rng, 1e-3, 1e3)), xyz=rng.uniform(-np.pi, np.pi, 3),
                    seq="".join(rng.choice(list("xyz"), k)), angles=[float(a) for a in rng.uniform(-np.pi, np.pi, k)],
-                   axis=gens.vec3(rng, 1e-3, 1e3), angle=float(rng.uniform(-2 * np.pi, 2 * np.pi)),
+                   axis=gens.axis(rng) * near_unit(rng) if nu else gens.vec3(rng, 1e-3, 1e3), angle=float(rng.uniform(-2 * np.pi, 2 * np.pi)),
                    R=rq.rodrigues(*gens.rot_axang(rng, str(rng.choice(["generic", "tiny", "nearpi", "half_oblique"])))),
                    noise=rng.uniform(-1, 1, (3, 3)) * gens.logu(rng, 1e-17, 3e-14))
     for i in range(n):
